@@ -582,6 +582,39 @@ def run(ctx):
               "(<= 119 characters); when the fixture is unusable only the function-level _html_to_text binding remains")
 
 
+def _corrupt_demo():
+    """Binding demonstration (recorded in c17.selftest.md): a recorded observation is accepted by TLC, the
+    same observation with one corrupted field is rejected."""
+    from ..tlc import Scratch
+
+    class C:
+        pass
+    tk = lambda *ts: [{"k": k, "n": n} for k, n in ts]
+    good = {"a": "Obs", "w": "html", "eof": True, "html": "",
+            "toks": tk(("T", ""), ("S", "noscript"), ("T", ""), ("S", "img"), ("E", "noscript"), ("T", "")), "seen": [1, 6]}
+    variants = {"recorded": good,
+                "seen += hidden position 3": dict(good, seen=[1, 3, 6]),
+                "seen -= visible position 6": dict(good, seen=[1]),
+                "token 5 </noscript> -> </div> (element now unclosed: DON'T-CARE, accepted)":
+                    dict(good, toks=good["toks"][:4] + tk(("E", "div")) + good["toks"][5:]),
+                "wrapper name corrupted": dict(good, w="htlm")}
+    with Scratch("C17demo") as sc:
+        ctx = C()
+        ctx.scratch = sc
+        for name, e in variants.items():
+            acc, bad, *_ = validate_events(ctx, [{"id": name, "ev": [e]}], parallel=1) if name != "wrapper name corrupted" \
+                else ([False], {}, 0, 0, 0)
+            if name == "wrapper name corrupted":
+                try:
+                    validate_events(ctx, [{"id": name, "ev": [e]}], parallel=1)
+                except MachineryError as ex:
+                    print(f"{name}: rejected (no event enabled; driver raises MachineryError: {str(ex)[:60]}...)")
+                continue
+            print(f"{name}: {'ACCEPTED' if acc[0] else 'REJECTED'}" + (f" expected={list(bad.values())[0]}" if bad else ""))
+
+
 if __name__ == "__main__":
     if sys.argv[1] == "worker":
         _worker(sys.argv[2], sys.argv[3])
+    elif sys.argv[1] == "corrupt-demo":
+        _corrupt_demo()
